@@ -564,6 +564,44 @@ def _monitor(res, case, ctx, rqs, pp, rpp, impl, rows):
                 res.fail(f'alone vs batch: {name} metrics of bidirectional request {rid} in the batch {bad[0]} differ from the same '
                          f'request computed alone on a freshly designed network {bad[1]}')
                 break
+    # ---- uni/bidirectional twins: what the forward direction established (blocking reason, mode, forward metrics) coincides ----
+    resp = {j['response-id']: j for j in impl}
+
+    def view(j):
+        reason = j['no-path']['no-path'] if 'no-path' in j else None
+        props = j.get('path-properties') or j.get('no-path', {}).get('path-properties')
+        mode = fwd = None
+        if props:
+            mode = next((x['path-route-object']['transponder'] for x in props['path-route-objects']
+                         if 'transponder' in x['path-route-object']), None)
+            fwd = [[x['metric-type'], x['accumulative-value']] for x in props['path-metric']]
+        return ('feasible' if reason in (None, 'NO_SPECTRUM') else reason), mode, fwd
+    for a, b in batch_g.twin_pairs(case, 'bidir'):
+        if a not in resp or b not in resp:
+            continue
+        u, w = (a, b) if not by_id[a]['bidir'] else (b, a)       # u = unidirectional twin, w = bidirectional twin
+        (ru, mu, fu), (rw, mw, fw) = view(resp[u]), view(resp[w])
+        res.stats['uni_bidir_twins'] += 1
+        res.stats[f'uni_bidir_twins_{ru}'] += 1
+        if ru != 'feasible' and rw != ru:
+            res.fail(f'twins: bidirectional request {w} is blocked with {rw}; its unidirectional twin {u} (same request, forward '
+                     f'direction only) is blocked with {ru}: the reason established by the forward direction must be reported')
+        elif ru == 'feasible' and rw not in ('feasible', 'MODE_NOT_FEASIBLE'):
+            res.fail(f'twins: bidirectional request {w} reports {rw} while its unidirectional twin {u} is feasible')
+        elif mu != mw or fu != fw:
+            res.fail(f'twins: bidirectional request {w} reports mode {mw} / forward metrics {str(fw)[:120]}; its unidirectional twin '
+                     f'{u} reports {mu} / {str(fu)[:120]}')
+    for a, b in batch_g.twin_pairs(case, 'hop'):
+        a, b = (a, b) if not by_id[a]['strict'] else (b, a)
+        if a in resp and b in resp:
+            ra, rb = view(resp[a])[0], view(resp[b])[0]
+            res.stats['loose_strict_twins'] += 1
+            if ra != 'feasible' and ra in NOPATH:
+                res.fail(f'twins: request {a} has only LOOSE include nodes that cannot be honoured and must get the unconstrained '
+                         f'route, but is blocked with {ra}')
+            if rb != 'NO_PATH_WITH_CONSTRAINT':
+                res.fail(f'twins: request {b} has a STRICT include list that no route can honour and must be blocked '
+                         f'NO_PATH_WITH_CONSTRAINT, but reports {rb}')
     srcs = [by_id[x]['src'] for x in by_id if by_id[x]['bidir']]
     res.stats['batches_with_two_bidir_from_same_source'] += int(len(srcs) != len(set(srcs)))
     if ill_any:
